@@ -251,6 +251,19 @@ func runC07(c *core.Ctx) {
 				}
 				docs = append(docs, d)
 			}
+			// and one or two members of the scalable families at a boundary size: pools, free lists and caches are often
+			// reserved for inputs beyond some size
+			for k := 1 + r.Intn(2); k > 0; k-- {
+				fam := wl.DeepFamilies[wl.FirstLimitFamily+r.Intn(len(wl.DeepFamilies)-wl.FirstLimitFamily)]
+				if strings.HasPrefix(fam.Name, "table-") {
+					continue // quadratic output; the race build is slow enough
+				}
+				n := []int{33, 65, 129, 257, 300}[r.Intn(5)]
+				if d := fam.Gen(n); len(d) > 0 && len(d) < 1<<13 {
+					docs = append(docs, d)
+					c.Observe("families_in_rounds", fam.Name)
+				}
+			}
 			c.Count("generated_documents", int64(len(docs)-len(fixed)))
 		}
 		inst := insts[r.Intn(len(insts))]
